@@ -23,7 +23,7 @@ CHECKS = {
          'everything was released). Calls: Do, DoMulti, DoCache, DoMultiCache, MGET and ToStaticTTL cached reads, blocking-tagged commands, '
          'Receive; contexts cancelled at random and scenario-dictated moments; pushes (invalidate, message, unknown kinds) inserted into the '
          'reply stream; writes of the client gated.',
-    design_ref='DESIGN.md 3, 4.2, 5 C01; proposed/design_pipeobs.md',
+    design_ref='DESIGN.md 3, 4.2, 5 C01; design/pipeobs.md',
     note='Trusted: TLC, fakeredis (incl. the event-before-frame ordering fix), the driver\'s canonical rendering of values. Bounded: the exhaustive '
          'part is the abstract client of PipeScenario.tla, not pipe.go (no refinement proof to a detailed Pipe.tla in this round); real runs '
          'perturb schedules (holds, gates, scripts, seeds) but do not enumerate them. DisableRetry on, no ConnLifetime, no deadlines.'),
@@ -37,7 +37,7 @@ CHECKS = {
          '29 typed builder paths (SET EX/PX/EXAT/PXAT typed and raw, GETEX, SETEX, PSETEX, EXPIRE(+NX), PEXPIRE, EXPIREAT, PEXPIREAT, INCRBY, '
          'INCRBYFLOAT, HINCRBYFLOAT, ZADD, GETRANGE, LRANGE, SETRANGE, XADD(+MAXLEN ~ LIMIT)) over int64 boundaries, floats m*10^e incl. 1e21, '
          'durations below one unit, times; the specification computes the expected tokens (decimal expansion, truncating unit conversion).',
-    design_ref='DESIGN.md 5 C33; proposed/design_pipeobs.md',
+    design_ref='DESIGN.md 5 C33; design/pipeobs.md',
     note='Level of part (a) is exploration: a sample of 30 of the ~2000 generated builder methods; float inputs are limited to values whose shortest '
          'round-trip digits are the listed mantissa. Part (b) observes argv at the fake server only (what reaches the wire).'),
  'C26': dict(
@@ -51,7 +51,7 @@ CHECKS = {
          'order; each channel handed out is closed exactly once - a double close crashes the driver process and is reported -, <=1 error and only '
          'after loss/Close), OwnRepliesInOrder for the regular commands interleaved on the same connection. Overlapping subscriptions, bursts '
          'above the 16-slot buffer, endings by context, client UNSUBSCRIBE, server-initiated unsubscribe push, cut; RESP2 (second connection).',
-    design_ref='DESIGN.md 5 C26; proposed/design_pipeobs.md',
+    design_ref='DESIGN.md 5 C26; design/pipeobs.md',
     note='The subs object of pubsub.go itself is covered separately (spec/pipe/Subs.tla, checks/subscommon.py of the main session, to be called from c26.py at '
          'merge time); here buffer-full blocking is exercised only through the real client. A Receive ended by its context may have seen any prefix: a client that loses the tail of a cancelled subscription is not detected.'),
  'C27': dict(
@@ -63,7 +63,7 @@ CHECKS = {
          'invalidation callback or subscribed is switched off - CLIENT TRACKING OFF / UNSUBSCRIBE received - before the connection serves another '
          'session and before release() returns). Cached reads with writes by another client, multi-key bursts, FLUSHALL, cut of a connection, '
          'PipelineMultiplex -1/1/2, successive dedicated sessions on a pool of one connection.',
-    design_ref='DESIGN.md 5 C27; proposed/design_pipeobs.md',
+    design_ref='DESIGN.md 5 C27; design/pipeobs.md',
     note='Not applicable to AlwaysRESP2 / DisableAutoPipelining configurations (no push delivery there by design). Close of the whole client is not '
          'part of LossNilOnce.'),
 }
